@@ -755,7 +755,7 @@ func (st *ex4State) checkCompletion(v *vio, o *ex4Op, name string, got *dhcpv4.D
 	if got.OpCode != dhcpv4.OpcodeBootReply || !bytes.Equal(got.ClientHWAddr, ex4ClientHW) || got.TransactionID != xid {
 		v.add("X-result-foreign", "%s: completed by a message that is not a BOOTREPLY for this client and transaction (op=%v hw=%v xid=%s)", name, got.OpCode, got.ClientHWAddr, got.TransactionID)
 	}
-	if !got.ServerIdentifier().Equal(sid) {
+	if sid != nil && !got.ServerIdentifier().Equal(sid) {
 		v.add("X-result-server", "%s: completed by a %s bearing server identifier %v, want the selected server %v", name, got.MessageType(), got.ServerIdentifier(), sid)
 	}
 	src := st.findSource(got, o.invSeq, o.retSeq)
@@ -773,6 +773,9 @@ func (st *ex4State) checkCompletion(v *vio, o *ex4Op, name string, got *dhcpv4.D
 		return
 	}
 	for _, r := range st.rx {
+		if sid == nil {
+			break // which of several ACKs / NAKs completes a renewal is not specified
+		}
 		if r.seq > tx.seq && r.seq < src.seq && st.qualifies(r, xid, sid) {
 			v.add("X-result-not-first", "%s: completed by the %s delivered at #%d although a qualifying %s was delivered earlier in the same try, at #%d", name, got.MessageType(), src.seq, r.m.MessageType(), r.seq)
 			break
@@ -983,14 +986,17 @@ func (st *ex4State) checkRenew(v *vio, o *ex4Op, name string, req []*ex4Tx, extr
 	xid := dhcpv4.TransactionID{}
 	binary.BigEndian.PutUint32(xid[:], req[0].p.xid)
 	var nak *nclient4.ErrNak
+	// Who may complete a renewal, and what the new lease keeps of the old one, the property
+	// does not say (its "completed only by ... that server identifier" clause is about the
+	// REQUEST of an acquisition): judged here is only that the result is a delivered ACK / NAK
+	// for this client and transaction. (An earlier version demanded the lease's server and the
+	// original offer: more than the statement, see DESIGN.md section 6.2.)
+	_ = sid
 	switch {
 	case o.err == nil && o.lease != nil:
-		if o.lease.Offer != in.Offer && (o.lease.Offer == nil || !bytes.Equal(o.lease.Offer.ToBytes(), in.Offer.ToBytes())) {
-			v.add("X-renew-offer", "%s: the renewed lease does not keep the original offer", name)
-		}
-		st.checkCompletion(v, o, name, o.lease.ACK, dhcpv4.MessageTypeAck, xid, sid, req[0])
+		st.checkCompletion(v, o, name, o.lease.ACK, dhcpv4.MessageTypeAck, xid, nil, req[0])
 	case errors.As(o.err, &nak):
-		st.checkCompletion(v, o, name, nak.Nak, dhcpv4.MessageTypeNak, xid, sid, req[0])
+		st.checkCompletion(v, o, name, nak.Nak, dhcpv4.MessageTypeNak, xid, nil, req[0])
 	}
 }
 
